@@ -14,6 +14,7 @@ import (
 	"runtime/debug"
 	"strings"
 	"sync/atomic"
+	"syscall"
 	"testing"
 	"testing/synctest"
 	"time"
@@ -53,7 +54,15 @@ var (
 // is executing right now, 0 when none is; the worker's watchdog goroutine reads it.
 var runningSince atomic.Int64
 
-func enterSUT() { runningSince.Store(time.Now().UnixNano()) }
+// realNanos reads the real clock without touching time.Local (which Install assigns: the watchdog
+// goroutine must not race with it) and without being fooled by a synctest bubble's fake clock.
+func realNanos() int64 {
+	var tv syscall.Timeval
+	syscall.Gettimeofday(&tv)
+	return tv.Sec*1e9 + tv.Usec*1e3
+}
+
+func enterSUT() { runningSince.Store(realNanos()) }
 func leaveSUT() { runningSince.Store(0) }
 
 // startWatchdog ends the process with status 124 when one execution of the code under test has been
@@ -63,7 +72,7 @@ func startWatchdog(limit time.Duration) {
 	go func() {
 		for {
 			time.Sleep(250 * time.Millisecond)
-			if t := runningSince.Load(); t != 0 && time.Since(time.Unix(0, t)) > limit {
+			if t := runningSince.Load(); t != 0 && time.Duration(realNanos()-t) > limit {
 				fmt.Fprintf(os.Stderr, "hrsim: WATCHDOG: the code under test has not returned for %v - hang\n", limit)
 				os.Exit(124)
 			}
